@@ -12,6 +12,9 @@ open Starcal
 /-- lib.NewDate (date.go) -/
 def lib_NewDate (y m d : Int) : Option GoSem.Date := some ⟨y, m, d⟩
 
+/-- lib.NewHMS (hms.go) -/
+def lib_NewHMS (h m s : Int) : Option GoSem.HMS := some ⟨h, m, s⟩
+
 /-- utils.BisectLeft (funcs.go) -/
 def utils_BisectLeft (a : List Int) (v : Int) : Option Int := some (bisectLeft a v : Nat)
 
